@@ -19,14 +19,6 @@ Fixpoint reaches_root (fuel : nat) (k : key) (s : st) : bool :=
                     end
        end.
 
-Definition creator_kind_ok (child parent : kind) : bool :=
-  match child, parent with
-  | KFile, KStep | KFile, KTree | KFile, KRoot => true
-  | KStep, KStep | KStep, KRoot => true
-  | KTree, KStep => true
-  | _, _ => false
-  end.
-
 (* I0: keys are unique, the root row is as the CHECK constraints demand *)
 Definition inv_nodes_b (s : st) : bool :=
   nodup_by key_eqb (map nk (nodes s)) &&
@@ -81,6 +73,12 @@ Definition inv_acyclic_b (s : st) : bool :=
 Definition inv_undeclared_b (s : st) : bool :=
   forallb (fun r => negb (fstate_eqb (fstt r) FUndeclared) || is_detached (KFile, fl r) s) (files s).
 
+(* I3': a file without any declaration has no creator (stronger than I3 given I1; needed for
+   induction: reattaching a step makes its whole product subtree attached) *)
+Definition inv_nocreator_b (s : st) : bool :=
+  forallb (fun r => negb (fstate_eqb (fstt r) FUndeclared) || negb (is_some (creator_of (KFile, fl r) s)))
+          (files s).
+
 (* I5a: hash presence agrees with the file state *)
 Definition inv_fhash_b (s : st) : bool :=
   forallb (fun r => match fstt r with
@@ -111,11 +109,12 @@ Definition inv_succeeded_b (s : st) : bool :=
    file has been taken over / re-created (then the edge was cut); a file's producers *)
 Definition inv_b (s : st) : bool :=
   inv_nodes_b s && inv_local_b s && inv_reach_b s && inv_rows_b s && inv_deps_b s &&
-  inv_acyclic_b s && inv_undeclared_b s && inv_fhash_b s && inv_step_b s.
+  inv_acyclic_b s && inv_undeclared_b s && inv_fhash_b s && inv_step_b s && inv_nocreator_b s.
 
 Definition inv_report (s : st) : list bool :=
   [inv_nodes_b s; inv_local_b s; inv_reach_b s; inv_rows_b s; inv_deps_b s; inv_acyclic_b s;
-   inv_undeclared_b s; inv_fhash_b s; inv_step_b s; inv_running_nohash_b s; inv_succeeded_b s].
+   inv_undeclared_b s; inv_fhash_b s; inv_step_b s; inv_running_nohash_b s; inv_succeeded_b s;
+   inv_nocreator_b s].
 
 (* every prefix of a run *)
 Fixpoint all_prefixes_ok (p : st -> bool) (s : st) (ops : list op) : bool :=
